@@ -739,7 +739,7 @@ where
     F: Fn() -> I,
 {
     let n = want.len();
-    let cap = n + 2; // never collect unboundedly from a possibly broken iterator
+    let cap = n + 2; // collections are bounded; count()/last()/nth() run on the library iterator itself (a hang there is a watchdog exit 2)
     let ks = [0usize, 1, k % (n + 2), n.saturating_sub(1), n, n + 1];
     for &k in &ks {
         let got = mk().nth(k);
@@ -751,7 +751,8 @@ where
         for _ in 0..k.min(n) {
             it.next();
         }
-        let c = it.take(cap).count();
+        // (called on the library iterator itself, not through `take`, so that an overridden count() is the one that runs)
+        let c = it.count();
         vensure!(c == n - k.min(n), "iterator-adaptor/count-after-partial", "{}: after {} calls of next(), count() = {}, expected {}", what, k.min(n), c, n - k.min(n));
     }
     for s in [1usize, 2, 3, k % 5 + 1] {
@@ -759,9 +760,9 @@ where
         let exp: Vec<T> = want.iter().step_by(s).cloned().collect();
         vensure!(got == exp, "iterator-adaptor/step_by", "{}: step_by({}) yields {} items, expected {}", what, s, got.len(), exp.len());
     }
-    let c = mk().take(cap).count();
+    let c = mk().count();
     vensure!(c == n, "iterator-adaptor/count", "{}: count() = {}, expected {}", what, c, n);
-    let l = mk().take(cap).last();
+    let l = mk().last();
     vensure!(l.as_ref() == want.last(), "iterator-adaptor/last", "{}: last() = {:?}, expected {:?}", what, l, want.last());
     let (lo, hi) = mk().size_hint();
     vensure!(lo <= n && hi.map(|h| h >= n).unwrap_or(true), "iterator-adaptor/size_hint", "{}: size_hint() = ({}, {:?}) but the iterator yields {} items", what, lo, hi, n);
